@@ -14,9 +14,25 @@ def program(mir_files=('/verif/.cache/liwe.mir',), crates=('crates/liwe',), repo
         for c in crates:
             tt = rsrc.load_crate(repo, c); tt.roots = [repo]
             tts.append(tt)
+        if any(c.endswith('iwes') for c in crates):
+            tts.append(external_table('lsp-types-0.95.1', 'lsp_types'))
         _PROG = Program(list(mir_files), tts)
         natives.install(_PROG)
     return _PROG
+
+def external_table(crate_dir, modname):
+    """struct / enum layouts of a registry crate (field order for aggregates and projections)"""
+    import glob
+    base = glob.glob(os.path.expanduser('~/.cargo/registry/src/*/' + crate_dir + '/src'))[0]
+    tt = rsrc.TypeTable()
+    tt.roots = []
+    tt.prefix = modname
+    for p in sorted(glob.glob(base + '/**/*.rs', recursive=True)):
+        try:
+            tt.add_file(p, modname)
+        except Exception:
+            pass
+    return tt
 
 class H:
     """value factory bound to a Program"""
